@@ -47,34 +47,13 @@ Fixpoint memo_run (i : nat) (args : list pyval) (store : list (pyval * nat)) : l
       end
   end.
 
-(* pickle.dumps of a frozenset writes its elements in iteration order = hash table order; the hashes of str and
-   bytes objects (hence of tuples / frozensets containing them) depend on PYTHONHASHSEED, those of numbers and None
-   do not.  A key is pickled to the same bytes in every process unless it contains a frozenset with >= 2 elements
-   one of which has a seed dependent hash.  (Mechanism of CPython, modelled; lists/tuples/sorted sets are ordered.) *)
-Fixpoint seeded_hash (v : pyval) : bool :=
-  match v with
-  | PA (AStr (_ :: _)) | PA (ABytes (_ :: _)) => true
-  | PA _ => false
-  | PSeq _ l => existsb seeded_hash l
-  | PSetv _ l => existsb seeded_hash l
-  | _ => false
-  end.
-Fixpoint seed_dep (k : pyval) : bool :=
-  match k with
-  | PA _ => false
-  | PSeq _ l => existsb seed_dep l
-  | PSetv _ l => ((2 <=? length l) && existsb seeded_hash l) || existsb seed_dep l
-  | PMap _ kvs => existsb (fun kv => seed_dep (fst kv) || seed_dep (snd kv)) kvs
-  | _ => false
-  end.
-
 Definition run (c : case) : sx :=
   match c with
   | CPair fp v w => run_pair fp v w
   | CMemo args => SL (memo_run 0 args [])
   | CPickle v =>
       match to_hashable true v with
-      | Ok k => SL [SS (s "ok"); SB (negb (seed_dep k))]
+      | Ok k => SL [SS (s "ok"); SB true]      (* _pickle_key orders the sets inside the key: a function of the key *)
       | Err e => SErr e
       end
   | CRekey v w =>
